@@ -146,6 +146,7 @@ package bucketteer
 // only swaps elements of a and calls compare). Not `noframe`: that would make callers forget the written() counters.
 //@ func sortWithCompare
 //@   mode int
+//@   fnpure compare
 //@   requires compare != nil && len(a) <= 2305843009213693952
 //@   modifies a
 //@   use szRoot(len(a)) && unfold(lo(len(a), 1))
@@ -184,7 +185,9 @@ package bucketteer
 // holds because the keys are distinct [2]byte values (pigeonhole; not derivable by vcgo): used by seal to exclude overflow.
 //@ func getSortedPrefixes
 //@   mode int
-//@   ensures fresh(result) && len(result) <= 65536
+//@   option sort-members
+//@   ensures fresh(result)
+//@   ensures len(result) <= 65536
 //@   ensures forall i int :: 0 <= i && i < len(result) ==> has(prefixToHashes, result[i])
 //@   ensures forall k [2]byte :: has(prefixToHashes, k) ==> exists i int :: 0 <= i && i < len(result) && result[i] == k
 //@   loop 0 invariant fresh(prefixes)
@@ -216,7 +219,7 @@ package bucketteer
 //@   mode int
 //@   requires out != nil && prefixToHashes != nil
 //@   requires forall p [2]byte :: len(prefixToHashes[p]) <= 4294967295
-//@   modifies all
+//@   modifies allof([]uint64), written(out)
 //@   ensures result2 != nil ==> len(result0) == 0 && result1 == 0
 //@   ensures result2 == nil ==> int(result1) == written(out) - old(written(out))
 //@   ensures result2 == nil ==> 36 <= headerSize && int(result1) == headerSize + int(previousOffset)
